@@ -54,8 +54,19 @@ RefDemands(n, d) ==
 RefClash(n, d) ==
   LET rd == RefDemands(n, d) IN \E a \in rd : \E b \in rd : a[1] = b[1] /\ a[2] \cap b[2] = {}
 
+\* the bound variable of a quantifier over a LITERAL set or range, used where a type disjoint from the elements is demanded
+LiteralElemType(dom) ==
+  IF dom.cls = "HplRange" THEN T_NUMBER
+  ELSE IF dom.cls = "HplSet" THEN UNION {Static(dom.values[i]) : i \in 1..Len(dom.values)}
+  ELSE T_ANY
+BoundClash(n) ==
+  \E q \in {x \in Nodes(n) : x.cls = "HplQuantifier"} :
+     \E rd \in RefDemands(q.condition, T_BOOL) :
+        rd[1] = [cls |-> "HplVarReference", name |-> q.variable] /\ rd[2] \cap LiteralElemType(q.domain) = {}
+
 \* n: stripped expression expected to be a predicate's condition
 DefiniteClash(n) ==
+  \/ BoundClash(n)
   \/ \E x \in Nodes(n) : IsExpr(x) /\ SlotClash(x)
   \/ Static(n) \cap T_BOOL = {}
   \/ RefClash(n, T_BOOL)
